@@ -15,7 +15,9 @@ Obs == JsonDeserialize(IOEnv.OBS_FILE)
 Rows(u) == Obs.rows
 FormOf(way) == IF way = "json_str" THEN "str" ELSE "obj"
 \* only the JSON ways use the marker scheme; pickle and deepcopy have no collision classes
-RowClass(r) == IF r.way \in {"json", "json_str"} THEN ClassOf(r.v, FormOf(r.way)) ELSE "plain"
+\* a value that cannot even be constructed with the API is filed under its own collision class, whatever the way
+RowClass(r) == IF ~r.built THEN ClassOf(r.v, "obj")
+               ELSE IF r.way \in {"json", "json_str"} THEN ClassOf(r.v, FormOf(r.way)) ELSE "plain"
 RowBad(r) == ~(r.ok /\ r.back = r.v /\ r.eq /\ r.type /\ r.hash /\ r.tree)
 Clause(r) == IF ~r.ok THEN "raises" ELSE IF r.back # r.v THEN "value" ELSE IF ~r.eq THEN "eq"
              ELSE IF ~r.type THEN "type" ELSE IF ~r.hash THEN r.hashwhy ELSE "tree"
